@@ -135,9 +135,10 @@ def theorems_of(mod):
         if m and ns and ns[-1] == m.group(1):
             ns.pop()
             continue
-        m = re.match(r"\s*(?:@\[[^\]]*\]\s*)?(?:private\s+|protected\s+)?theorem\s+([^\s:({\[]+)", line)
-        if m:
-            names.append(".".join(ns + [m.group(1)]))
+        m = re.match(r"\s*(?:@\[[^\]]*\]\s*)?(private\s+|protected\s+)?theorem\s+([^\s:({\[]+)", line)
+        if m and not (m.group(1) or "").startswith("private"):
+            # private helper lemmas are not addressable from the audit file and are not obligations
+            names.append(".".join(ns + [m.group(2)]))
     return names
 
 
@@ -197,7 +198,7 @@ def proof_side(pid, thorough):
     axioms = {}
     cur = None
     txt = p.stdout
-    for m in re.finditer(r"'([^']+)' (does not depend on any axioms|depends on axioms: \[([^\]]*)\])", txt, re.S):
+    for m in re.finditer(r"^'(.+?)' (does not depend on any axioms|depends on axioms: \[([^\]]*)\])", txt, re.S | re.M):
         nm = m.group(1)
         axs = set() if m.group(3) is None else {a.strip() for a in m.group(3).replace("\n", " ").split(",") if a.strip()}
         axioms[nm] = axs
